@@ -236,6 +236,7 @@ struct Profile {
 	uint32_t wUpdate = 30, wReact = 10, wQuery = 4, wExtChange = 12, wImmediate = 8, wExtReport = 6, wExtPlan = 10,
 			 wSaveLoad = 5, wCopy = 3, wEnterExit = 4, wObserve = 2;
 	bool pingPong = false;       // guards always redirect to (sid+1)%N
+	bool relentless = false;     // ... every guard callback does, so a chain only ends at the substitution limit
 	bool guardsOnly = false;     // only guards act (ENUM mode)
 };
 
